@@ -5,6 +5,7 @@ import builtins
 import collections
 import dataclasses
 import functools
+import io
 import itertools
 import re
 import textwrap
@@ -763,7 +764,9 @@ def has_side_effect(node: ast.AST, safe_callable_whitelist: Collection[str] = fr
 def _get_line_start_charnos(source: str) -> Sequence[int]:
     start = 0
     charnos = []
-    for line in source.splitlines(keepends=True):
+    # Split on the line breaks that the parser recognizes (\n, \r\n and \r). str.splitlines()
+    # also splits on form feeds and unicode line separators, which do not end a line in the AST.
+    for line in io.StringIO(source, newline="").readlines():
         charnos.append(start)
         start += len(line)
     return tuple(charnos)
